@@ -23,11 +23,11 @@ use aranya_policy_vm::*;
 
 // ---------------------------------------------------------------- s-expressions
 #[derive(Clone, Debug)]
-enum Sx {
+pub enum Sx {
     A(String),
     L(Vec<Sx>),
 }
-fn parse_sx(s: &str) -> Sx {
+pub fn parse_sx(s: &str) -> Sx {
     let toks: Vec<String> = s.replace('(', " ( ").replace(')', " ) ").split_whitespace().map(String::from).collect();
     fn go(t: &[String], i: &mut usize) -> Sx {
         if t[*i] == "(" {
@@ -47,38 +47,38 @@ fn parse_sx(s: &str) -> Sx {
     go(&toks, &mut i)
 }
 impl Sx {
-    fn atom(&self) -> &str {
+    pub fn atom(&self) -> &str {
         match self {
             Sx::A(s) => s,
             Sx::L(_) => panic!("harness: atom expected, got {:?}", self),
         }
     }
-    fn list(&self) -> &[Sx] {
+    pub fn list(&self) -> &[Sx] {
         match self {
             Sx::L(v) => v,
             Sx::A(_) => panic!("harness: list expected, got {:?}", self),
         }
     }
-    fn head(&self) -> &str {
+    pub fn head(&self) -> &str {
         match self {
             Sx::A(s) => s,
             Sx::L(v) => v[0].atom(),
         }
     }
-    fn args(&self) -> &[Sx] {
+    pub fn args(&self) -> &[Sx] {
         match self {
             Sx::A(_) => &[],
             Sx::L(v) => &v[1..],
         }
     }
 }
-fn unhex(s: &str) -> Vec<u8> {
+pub fn unhex(s: &str) -> Vec<u8> {
     if s == "-" {
         return vec![];
     }
     (0..s.len() / 2).map(|i| u8::from_str_radix(&s[2 * i..2 * i + 2], 16).unwrap()).collect()
 }
-fn hex(b: &[u8]) -> String {
+pub fn hex(b: &[u8]) -> String {
     if b.is_empty() {
         return "-".into();
     }
@@ -319,7 +319,7 @@ fn show_keys(k: &[FactKey]) -> String {
 fn show_values(k: &[FactValue]) -> String {
     format!("({})", k.iter().map(|k| format!("({} {})", k.identifier, show_value(&k.value))).collect::<Vec<_>>().join(" "))
 }
-fn hs(s: &str) -> String {
+pub fn hs(s: &str) -> String {
     hex(s.as_bytes())
 }
 fn show_ioerr(e: &MachineIOError) -> &'static str {
@@ -619,26 +619,18 @@ fn instr_kind(i: &Instruction) -> String {
     let d = format!("{i:?}");
     d.split(|c: char| !c.is_alphanumeric()).next().unwrap().to_string()
 }
-fn run_case(line: &str) -> String {
-    let sx = parse_sx(line);
-    let mut parts: BTreeMap<String, Sx> = BTreeMap::new();
-    for p in sx.args() {
-        parts.insert(p.head().to_string(), p.clone());
-    }
+pub fn compile_policy(p: &Sx) -> Module {
+    let text = String::from_utf8(unhex(p.args()[0].atom())).unwrap();
+    let ast = aranya_policy_lang::lang::parse_policy_str(&text, aranya_policy_vm::ast::Version::V2)
+        .unwrap_or_else(|e| panic!("harness: policy does not parse: {e}"));
+    aranya_policy_compiler::Compiler::new(&ast)
+        .debug(true)
+        .compile()
+        .unwrap_or_else(|e| panic!("harness: policy does not compile: {e}"))
+}
+/// The hand-built machine of a case, and the same content as a `Module` (definitions in the order given).
+pub fn build_handmade(parts: &BTreeMap<String, Sx>) -> (Machine, Module) {
     let get = |k: &str| parts.get(k).unwrap_or_else(|| panic!("harness: missing {k}")).clone();
-    let compiled = parts.get("policy").map(|p| {
-        let text = String::from_utf8(unhex(p.args()[0].atom())).unwrap();
-        let ast = aranya_policy_lang::lang::parse_policy_str(&text, aranya_policy_vm::ast::Version::V2)
-            .unwrap_or_else(|e| panic!("harness: policy does not parse: {e}"));
-        let module = aranya_policy_compiler::Compiler::new(&ast)
-            .debug(true)
-            .compile()
-            .unwrap_or_else(|e| panic!("harness: policy does not compile: {e}"));
-        Machine::from_module(module).expect("harness: from_module")
-    });
-    if let Some(cm) = compiled {
-        return run_machine(cm, &parts, true);
-    }
     let mut m = match parts.get("codemap") {
         Some(cm) => {
             let a = cm.args();
@@ -666,31 +658,47 @@ fn run_case(line: &str) -> String {
         let l = l.list();
         m.labels.insert(Label::new(ident(&l[0]), labeltype(l[1].atom())), l[2].atom().parse().unwrap());
     }
+    let module = Module {
+        data: ModuleData::V0(ModuleV0 {
+            progmem: m.progmem.clone().into_boxed_slice(),
+            labels: m.labels.clone(),
+            action_defs: action_defs.clone(),
+            command_defs: command_defs.clone(),
+            fact_defs: fact_defs.clone(),
+            struct_defs: struct_defs.clone(),
+            enum_defs: vec![],
+            codemap: m.codemap.clone(),
+            globals: m.globals.clone(),
+        }),
+    };
+    for d in struct_defs { m.struct_defs.insert(d); }
+    for d in fact_defs { m.fact_defs.insert(d); }
+    for d in action_defs { m.action_defs.insert(d); }
+    for d in command_defs { m.command_defs.insert(d); }
+    (m, module)
+}
+pub fn parts_of(line: &str) -> BTreeMap<String, Sx> {
+    let sx = parse_sx(line);
+    let mut parts: BTreeMap<String, Sx> = BTreeMap::new();
+    for p in sx.args() {
+        parts.insert(p.head().to_string(), p.clone());
+    }
+    parts
+}
+fn run_case(line: &str) -> String {
+    let parts = parts_of(line);
+    if let Some(p) = parts.get("policy") {
+        let m = Machine::from_module(compile_policy(p)).expect("harness: from_module");
+        return run_machine(m, &parts, true);
+    }
+    let (m, module) = build_handmade(&parts);
     if parts.contains_key("viamodule") {
         // module loading: the definitions go through Machine::from_module in the order given
-        let module = Module {
-            data: ModuleData::V0(ModuleV0 {
-                progmem: m.progmem.clone().into_boxed_slice(),
-                labels: m.labels.clone(),
-                action_defs,
-                command_defs,
-                fact_defs,
-                struct_defs,
-                enum_defs: vec![],
-                codemap: m.codemap.clone(),
-                globals: m.globals.clone(),
-            }),
-        };
-        m = Machine::from_module(module).expect("harness: from_module");
-    } else {
-        for d in struct_defs { m.struct_defs.insert(d); }
-        for d in fact_defs { m.fact_defs.insert(d); }
-        for d in action_defs { m.action_defs.insert(d); }
-        for d in command_defs { m.command_defs.insert(d); }
+        return run_machine(Machine::from_module(module).expect("harness: from_module"), &parts, false);
     }
     run_machine(m, &parts, false)
 }
-fn run_machine(mut m: Machine, parts: &BTreeMap<String, Sx>, dump: bool) -> String {
+pub fn run_machine(mut m: Machine, parts: &BTreeMap<String, Sx>, dump: bool) -> String {
     let get = |k: &str| parts.get(k).unwrap_or_else(|| panic!("harness: missing {k}")).clone();
     let dumped = if dump { format!(" {}", show_machine(&m)) } else { String::new() };
     let pc: usize = get("pc").args()[0].atom().parse().unwrap();
@@ -803,8 +811,11 @@ fn run_machine(mut m: Machine, parts: &BTreeMap<String, Sx>, dump: bool) -> Stri
     )
 }
 
-fn main() {
-    panic::set_hook(Box::new(|_| {}));
+#[allow(dead_code)]
+pub fn main() {
+    if std::env::var("HX_VERBOSE").is_err() {
+        panic::set_hook(Box::new(|_| {}));
+    }
     let stdin = io::stdin();
     let out = io::stdout();
     let mut out = out.lock();
